@@ -116,6 +116,7 @@ class CounterInterp:
         self.max_paths = 5000
         self.paths = 0
         self.visited_calls: List[Tuple[str, dict]] = []
+        self.unprotected: list = []     # counter updates executed without holding the thread lock
         self.call_states: Dict[int, List[State]] = {}
 
     # -- helpers ------------------------------------------------------------
@@ -282,6 +283,11 @@ class CounterInterp:
 
         if k == 'store_attr' and self._is_self_attr(n.ast, self.cnt):
             s = st.copy()
+            d = s.v.get('DEPTH')
+            if d is not None:
+                dmin = d.at(s.c_known) if s.c_known is not None else d.min_for(s.cmin)
+                if dmin is None or dmin <= 0:
+                    self.unprotected.append((g, n, s.copy()))
             stmt = n.meta.get('stmt')
             if isinstance(stmt, ast.AugAssign):
                 d = self.eval_int(stmt.value, s, g)
@@ -368,6 +374,12 @@ class CounterInterp:
                 and self._is_self_attr(t.func.value, self.tl):
             for e in te:
                 s = st.copy()
+                # what was read from the shared state *before* the thread lock was obtained is stale now,
+                # unless this thread already held the lock (re-entrant inner acquire: c >= 1)
+                dmin = s.v['DEPTH'].at(s.c_known) if s.c_known is not None else s.v['DEPTH'].min_for(s.cmin)
+                if s.locked is not None and (dmin is None or dmin <= 0):
+                    s.trace.append(f'{g.loc(n)} LOCKED={s.locked} was read without the thread lock: forgotten')
+                    s.locked = None
                 s.v['DEPTH'] = s.v['DEPTH'] + Lin(0, 1)
                 s.effects += 1
                 s.trace.append(f'{g.loc(n)} TL.acquire succeeded DEPTH:={s.v["DEPTH"]!r}')
